@@ -107,7 +107,12 @@ def run_check(prop, tier="quick", seed=0, replay=None, nshards=None, verbose=Tru
     truncated = False
     notes = []
     known_fired = {}
+    anchor_reach = {}
+    anchors_unresolved = set()
     for r in reports:
+        for k, lines in r.get("anchor_reach", {}).items():
+            anchor_reach.setdefault(k, set()).update(lines)
+        anchors_unresolved.update(r.get("anchors_unresolved", []))
         distinct.update(r["distinct"])
         states.update(r["states"])
         for k, v in r["counters"].items():
@@ -131,7 +136,9 @@ def run_check(prop, tier="quick", seed=0, replay=None, nshards=None, verbose=Tru
     os.makedirs(os.path.join(env.VERIF, "replays"), exist_ok=True)
     replay_paths = []
     for n, (k, v) in enumerate(sorted(unknown.items())):
-        path = os.path.join(env.VERIF, "replays", f"{prop}-{tier}-seed{seed}-{n}.json")
+        sub = "replays" if os.path.realpath(env.repo_path()) == "/repo" else os.path.join("replays", "scratch")
+        os.makedirs(os.path.join(env.VERIF, sub), exist_ok=True)
+        path = os.path.join(env.VERIF, sub, f"{prop}-{tier}-seed{seed}-{n}.json")
         w = v["witnesses"][0] if v["witnesses"] else {"case": None}
         with open(path, "w") as fh:
             json.dump({"property": prop, "key": k, "msg": v["msg"], "count": v["count"],
@@ -157,6 +164,9 @@ def run_check(prop, tier="quick", seed=0, replay=None, nshards=None, verbose=Tru
                 reasons.append(f"monitor counter {name}={got} below minimum {least}")
         if len(distinct) < 2:
             reasons.append("fewer than 2 distinct non-trivial cases")
+        unreached = sorted(k for k, v in anchor_reach.items() if not v) + sorted(anchors_unresolved)
+        if unreached:
+            reasons.append("anchored mechanisms never executed by the workload: " + ", ".join(unreached))
     if unknown:
         status, code = "violated", 1
     elif reasons:
@@ -179,6 +189,7 @@ def run_check(prop, tier="quick", seed=0, replay=None, nshards=None, verbose=Tru
                 "exhaustive": bool(exhaustive) and all(exhaustive.values()) and not truncated,
                 "exhaustive_sweeps": exhaustive,
                 "monitor_counters": counters,
+                "anchor_reach_lines": {k: len(v) for k, v in sorted(anchor_reach.items())},
                 "shards": len(reports), "shards_dead": len(dead), "truncated_by_budget": truncated,
                 "known_findings_seen": {k: v["count"] for k, v in seen_known.items()},
                 "violation_classes": {k: v["count"] for k, v in unknown.items()},
@@ -190,8 +201,10 @@ def run_check(prop, tier="quick", seed=0, replay=None, nshards=None, verbose=Tru
             "violations": len(unknown),
         }
         err = validate_evidence(ev)
-        os.makedirs(os.path.join(env.VERIF, "evidence"), exist_ok=True)
-        evpath = os.path.join(env.VERIF, "evidence", f"{prop}.json")
+        # evidence/ describes /repo itself; runs against a scratch tree (seeded mutants) write elsewhere
+        evdir = "evidence" if os.path.realpath(env.repo_path()) == "/repo" else os.path.join(".work", "evidence-scratch")
+        os.makedirs(os.path.join(env.VERIF, evdir), exist_ok=True)
+        evpath = os.path.join(env.VERIF, evdir, f"{prop}.json")
         with open(evpath, "w") as fh:
             json.dump(ev, fh, indent=1, default=repr)
         if err and code == 0:
